@@ -5,6 +5,6 @@ cd /verif
 names="$@"; [ -z "$names" ] && names=$(ls seeded)
 for n in $names; do
   id=$(python3 -c "import json;print(json.load(open('seeded/$n/meta.json'))['breaks'])")
-  rc=$(tools/seedrun.sh /verif/seeded/$n/patch.diff $id 2>&1 | grep '^exit=' | tail -1)
+  rc=$(WSYM_STOP_ON_VIOLATION=1 WSYM_NO_REPLAY= tools/seedrun.sh /verif/seeded/$n/patch.diff $id 2>&1 | grep '^exit=' | tail -1)
   echo "$n $id $rc"
 done
